@@ -10,7 +10,7 @@ import time
 
 VERIF = os.path.dirname(os.path.dirname(os.path.abspath(__file__)))
 SPECS = os.path.join(VERIF, "specs")
-HARNESS = os.path.join(VERIF, "harness")
+HARNESS = os.environ.get("VERIF_HARNESS", os.path.join(VERIF, "harness"))  # a private copy for parallel sweeps
 WORK = os.environ.get("VERIF_WORK", os.path.join(VERIF, "work"))
 REPO = os.path.abspath(os.environ.get("VERIF_REPO", "/repo"))
 GUARD = "varlink_rust_verif"
@@ -85,15 +85,15 @@ def _force_rebuild_if_sources_changed(target_dir, cwd, packages, extra_env=None)
     prev = open(stamp).read().strip() if os.path.exists(stamp) else None
     prev_last = open(last).read().strip() if os.path.exists(last) else None
     if prev != cur or prev_last != cur:
-        cmd = ["cargo", "clean", "--offline", "--quiet", "--target-dir", target_dir]
-        for pk in packages:
-            cmd += ["-p", pk]
         e = cargo_env()
         if extra_env:
             e.update(extra_env)
-        pc = subprocess.run(cmd, cwd=cwd, env=e, stdout=subprocess.PIPE, stderr=subprocess.STDOUT, text=True)
-        if pc.returncode != 0:
-            raise ToolError("cargo clean failed in %s: %s" % (cwd, pc.stdout[-500:]))
+        for pk in packages:
+            # one by one: a package that is not part of this build graph is simply not there to clean
+            pc = subprocess.run(["cargo", "clean", "--offline", "--quiet", "--target-dir", target_dir, "-p", pk], cwd=cwd, env=e,
+                                stdout=subprocess.PIPE, stderr=subprocess.STDOUT, text=True)
+            if pc.returncode != 0 and "did not match any packages" not in pc.stdout:
+                raise ToolError("cargo clean -p %s failed in %s: %s" % (pk, cwd, pc.stdout[-500:]))
         for fn in (stamp, last):
             if os.path.exists(fn):
                 os.unlink(fn)
@@ -104,6 +104,11 @@ def _record_src_hash(tok):
     stamp, last, cur = tok
     for fn in (stamp, last):
         open(fn, "w").write(cur)
+
+
+def guard_target(target_dir, cwd, packages):
+    """For builds outside build_harness / build_repo_bins that cache crates of the tree under test in `target_dir`."""
+    _record_src_hash(_force_rebuild_if_sources_changed(target_dir, cwd, packages))
 
 
 def build_harness():
